@@ -391,8 +391,108 @@ func dedupTag(t string) string {
 	return strings.Join(out, "+")
 }
 
+// ---- one estimator used step by step ------------------------------------------
+
+func execSteps(f []string) (string, string) {
+	if len(f) != 2 {
+		return "bad-op", "bad"
+	}
+	est := bitcoin.NewTransactionSizeEstimator()
+	var qs []string
+	var ins, outs []string
+	tags := map[string]bool{"steps": true}
+	queried := false
+	for _, st := range hx.SplitList(f[1]) {
+		p := strings.Split(st, ":")
+		if p[0] == "q" && len(p) == 1 {
+			v, err := est.VirtualSize()
+			if err != nil {
+				qs = append(qs, "err")
+			} else {
+				qs = append(qs, strconv.FormatInt(v, 10))
+			}
+			queried = true
+			continue
+		}
+		if len(p) < 2 {
+			return "bad-op", "bad"
+		}
+		n, e := strconv.Atoi(p[1])
+		if e != nil || n < 0 || n > 300 {
+			return "bad-op", "bad"
+		}
+		rlen := 0
+		if p[0] == "is" || p[0] == "iS" {
+			if len(p) != 3 {
+				return "bad-op", "bad"
+			}
+			rlen, e = strconv.Atoi(p[2])
+			if e != nil || rlen < 2 || rlen > 11000 {
+				return "bad-op", "bad"
+			}
+		} else if len(p) != 2 {
+			return "bad-op", "bad"
+		}
+		if queried && n > 0 {
+			tags["after-query-"+p[0]] = true
+		}
+		switch p[0] {
+		case "ip":
+			est.AddPublicKeyHashInputs(n, false)
+		case "iw":
+			est.AddPublicKeyHashInputs(n, true)
+		case "is":
+			est.AddScriptHashInputs(n, rlen, false)
+		case "iS":
+			est.AddScriptHashInputs(n, rlen, true)
+		case "op":
+			est.AddPublicKeyHashOutputs(n, false)
+		case "ow":
+			est.AddPublicKeyHashOutputs(n, true)
+		case "os":
+			est.AddScriptHashOutputs(n, false)
+		case "oS":
+			est.AddScriptHashOutputs(n, true)
+		default:
+			return "bad-op", "bad"
+		}
+		for j := 0; j < n; j++ {
+			switch p[0][0] {
+			case 'i':
+				k := p[0][1:]
+				ins = append(ins, fmt.Sprintf("%s:72:0:%d:118", k, rlen))
+			case 'o':
+				outs = append(outs, p[0][1:])
+			}
+		}
+	}
+	if len(ins) == 0 || len(qs) == 0 {
+		return "bad-op", "bad"
+	}
+	// the real transaction of the final shape, all signatures maximal
+	obs, _ := execSize([]string{"size", hx.JoinStrs(ins), hx.JoinStrs(outs)})
+	real := "?"
+	for _, t := range strings.Fields(obs) {
+		if strings.HasPrefix(t, "real=") {
+			real = t[5:]
+		}
+	}
+	if strings.Contains(obs, "siglen") || strings.Contains(obs, "harness-error") || real == "?" {
+		return "harness-error " + obs, "bad"
+	}
+	var tl []string
+	for t := range tags {
+		tl = append(tl, t)
+	}
+	sortStrings(tl)
+	return "q=" + strings.Join(qs, ",") + " real=" + real, strings.Join(tl, "+")
+}
+
 func exec(op string) (string, string) {
 	f := strings.Fields(op)
+	if len(f) > 0 && f[0] == "steps" {
+		return execSteps(f)
+	}
 	if len(f) > 0 && strings.HasPrefix(f[0], "tx") {
 		return execFlow(f)
 	}
@@ -706,6 +806,47 @@ func gen(r *hx.Rng, n int, tier string) []string {
 		}
 		sl := func() int {
 			return hx.Pick(r, []int{72, 72, 72, 71, 71, 70})
+		}
+		if r.Chance(1, 8) { // one estimator grown step by step with queries in between
+			var st []string
+			addIn := func() {
+				n := hx.Pick(r, []int{0, 1, 1, 2, 3, r.Range(0, 6)})
+				switch r.Intn(4) {
+				case 0:
+					st = append(st, fmt.Sprintf("ip:%d", n))
+				case 1:
+					st = append(st, fmt.Sprintf("iw:%d", n))
+				case 2:
+					st = append(st, fmt.Sprintf("is:%d:%d", n, hx.Pick(r, []int{92, 126, 75, 76, 300})))
+				default:
+					st = append(st, fmt.Sprintf("iS:%d:%d", n, hx.Pick(r, []int{92, 126, 300, 1000})))
+				}
+			}
+			addOut := func() {
+				st = append(st, fmt.Sprintf("%s:%d", hx.Pick(r, []string{"op", "ow", "os", "oS"}), hx.Pick(r, []int{0, 1, 1, 2, 3, r.Range(0, 6)})))
+			}
+			st = append(st, fmt.Sprintf("%s:%d", hx.Pick(r, []string{"ip", "iw"}), r.Range(1, 2)))
+			for j := r.Range(1, 8); j > 0; j-- {
+				switch r.Intn(5) {
+				case 0:
+					addIn()
+				case 1, 2:
+					addOut()
+				default:
+					st = append(st, "q")
+					if r.Bool() { // exactly one kind of step between two queries
+						if r.Chance(1, 3) {
+							addIn()
+						} else {
+							addOut()
+						}
+						st = append(st, "q")
+					}
+				}
+			}
+			st = append(st, "q")
+			ops = append(ops, "steps "+strings.Join(st, ","))
+			continue
 		}
 		if r.Chance(1, 4) { // whole flows
 			allMaxF := r.Chance(1, 3)
